@@ -46,6 +46,7 @@ pub fn dispatch(_cmd: &str, _a: &Args) -> bool {
         "c15" => rel::c15(_a),
         "c18-decode" => c18::decode_cmd(_a),
         "c18-child" => c18::child(_a),
+        "c18-traps" => c18::traps_cmd(_a),
         "c19" => c19::c19(_a),
         "c19-replay" => c19::c19_replay(_a),
         "c19-restable" => c19::c19_restable(_a),
